@@ -67,6 +67,20 @@ def run(ctx):
             cases.append((fn, (pvk, table, "1234", p, 0, 12, "F")))
         for pad in ("", "FF", "G", "g", "Ｆ", " ", "\n", "x"):
             cases.append((fn, (pvk, table, "1234", pan, 0, 16, pad)))
+        # short PANs: every window that stays inside, touches the end, or runs past it (but within 16)
+        for pl in (0, 1, 5, 11, 12, 15):
+            span = rnd(pl)
+            for off in sorted({0, 1, pl // 2, max(0, pl - 1), pl, pl + 1}):
+                for ln in sorted({0, 1, max(0, pl - off), pl - off + 1, 16 - off, 16}):
+                    if ln >= 0:
+                        cases.append((fn, (pvk, table, "1234", span, off, ln, rng.choice("0123456789ABCDEFabcdef"))))
+        # the same key and window under every pad character, one after the other (a cache keyed without the pad shows here)
+        for pl, off, ln in ((12, 0, 12), (16, 2, 10), (19, 0, 19), (5, 0, 0)):
+            span, k2 = rnd(pl), rng.randbytes(16)
+            for pad in "F0f9Aa5E":
+                cases.append((fn, (k2, table, "4321", span, off, ln, pad)))
+    from harness import gens
+    cases = fw.with_history(rng, cases, gens.variants_generic(rng), fraction=0.08, limit=40)
     return fw.call_result(
         cases, check_impl=check_impl, nontrivial=lambda fn, a, o_: o_[0] == "OK",
         rule="all 22 pad characters x PVK sizes x random tables x offset/PIN lengths 4..16 x PAN lengths 0..19 x windows "
